@@ -149,6 +149,7 @@ def run(ctx):
         "search_audits": au.n,
         "deviation_bounded": "nothing: every short-read pattern of every message is explored",
         "distinct_nontrivial": len(acc.nontrivial),
+        "distinct_outcome_classes": len(acc.outcomes),
         "rule": "one case = one (reader, message or request sequence); non-trivial = at least 2 bytes on the wire",
         "violations_raw": acc.counters.get("violations_raw", 0),
         "samples": acc.samples[:4],
